@@ -765,3 +765,40 @@ def t_update_markets():
     st.obl.append({"name": "SequentialRunner._update_markets/cover:paths", "pc": [], "goal": z3.BoolVal(n >= 1), "kind": "cover"})
     src = get_src()
     return {"obligations": st.obl, "info": [{"function": "SequentialRunner._update_markets", "source_sha": src.source_hash("SequentialRunner._update_markets"), "where": src.where("SequentialRunner._update_markets"), "paths": n, "assumptions": []}]}
+
+
+# ----------------------------------------------------------------------------- SequentialRunner._setup: generation order (C18: markets, correlations, agents, sessions, then the queued set-ups)
+@task("SequentialRunner._setup", props=["C18"], functions=["SequentialRunner._setup"], replay="config")
+def t_runner_setup():
+    """a successful set-up generates the markets of `simulation.markets`, then the correlations, the agents of `simulation.agents`, the sessions, and finally runs every queued
+    set-up step exactly once, in this order (agents name markets, sessions name both, queued steps use all three); a configuration error raises ValueError"""
+    def pending(ex, e, st, d):
+        out = []
+        for s1, it in ex.ev(e.generators[0].iter, st, d):
+            s1 = s1.copy()
+            s1.trace = s1.trace + [("RunQueuedSetups", None, (it.term,))]
+            out.append((s1, V(("list", ("dyn",)), s1.new_ref("setup_results"))))
+        return out
+
+    def extra(ex, st0, s1, a, res):
+        r = a["self"]
+        settings = st0.read(r, "settings")
+        kinds = [t[0] for t in s1.trace[len(st0.trace):]]
+        s1.oblige(f"trace:C18 generation order markets, correlations, agents, sessions, queued set-ups (got {kinds})",
+                  z3.BoolVal(kinds == ["GenMarkets", "SetCorrelations", "GenAgents", "GenSessions", "RunQueuedSetups"]), "trace")
+        if kinds == ["GenMarkets", "SetCorrelations", "GenAgents", "GenSessions", "RunQueuedSetups"]:
+            tr = s1.trace[len(st0.trace):]
+            sim_cfg = V(("dict", ("str",), ("dyn",)), dyn_ref(z3.Select(st0.dict_val(settings), z3.StringVal("simulation"))))
+            want_m = z3.Select(st0.dict_val(sim_cfg), z3.StringVal("markets")); want_a = z3.Select(st0.dict_val(sim_cfg), z3.StringVal("agents"))
+            s1.oblige("post:C18 the market groups generated are the listed `simulation.markets`, the agent groups the listed `simulation.agents`, the queue run is the runner's own",
+                      z3.And(tr[0][2][-1] == dyn_ref(want_m), tr[2][2][-1] == dyn_ref(want_a), tr[4][2][0] == st0.read(r, "_pending_setups").term), "post")
+    def pre(st, a):
+        settings = st.read(a["self"], "settings")
+        return [("`simulation`, when present, is a JSON object", z3.Implies(z3.Select(st.dict_dom(settings), z3.StringVal("simulation")), dyn_is_dict(z3.Select(st.dict_val(settings), z3.StringVal("simulation")))))]
+    spec = FSpec("SequentialRunner._setup", pre=pre, props=("C18",), modifies=lambda st, a: ["*"])
+    spec.may_raise = {"ValueError": lambda st, a: z3.BoolVal(True)}
+    specs = {("m", "SequentialRunner", "_generate_markets"): emit("GenMarkets"), ("m", "SequentialRunner", "_set_fundamental_correlation"): emit("SetCorrelations"),
+             ("m", "SequentialRunner", "_generate_agents"): emit("GenAgents"), ("m", "SequentialRunner", "_generate_sessions"): emit("GenSessions"),
+             ("idiom", "listcomp", "[func(**kwargs) for func, kwargs in self._pending_setups]"): pending}
+    obl, info = spec.verify(specs=specs, extra_goals=extra)
+    return {"obligations": obl, "info": [info]}
